@@ -26,6 +26,7 @@ import CaddyModel.C13.ListenLemmas
 import CaddyModel.C13.Caddyfile
 import CaddyModel.C13.UrlLemmas
 import CaddyModel.C13.NetipLemmas
+import CaddyModel.C13.LifecycleLemmas
 import CaddyModel.Gen.AdminGate
 import CaddyModel.Gen.Glue
 import CaddyModel.Gen.ConfigLocks
@@ -600,6 +601,60 @@ theorem remote_admin_glue_matches_source :
     Gen.remoteAdminKeyAppends = assumedRemoteKeyAppends := by
   decide
 
+-- ================================================================ lifecycle: histories of config loads
+
+/-- **after every load the only admin servers still listening are those of the CURRENT config** —
+    for every history of loads (endpoints switched on and off, moved between addresses, access
+    lists changed): the remote endpoint is down if the last config has no `admin.remote`, else
+    exactly one remote server listens, on the configured address, enforcing the configured access
+    list; the local endpoint is down if the last config disables it, else exactly one local server
+    listens on the configured address.  No server of an earlier config survives. -/
+theorem only_current_config_servers_live (pre : List LoadCfg) (c : LoadCfg) :
+    (c.remote = none → (afterHistory (pre ++ [c])).liveRemote = []) ∧
+    (∀ a acl, c.remote = some (a, acl) → ∃ id, (afterHistory (pre ++ [c])).liveRemote = [⟨id, a, acl⟩]) ∧
+    (c.loc = .disabled → (afterHistory (pre ++ [c])).liveLocal = []) ∧
+    (∀ a, c.loc = .listen a → ∃ id, (afterHistory (pre ++ [c])).liveLocal = [⟨id, a⟩]) := by
+  have hpre := foldl_inv pre Life.init init_inv.1 init_inv.2
+  have h := load_step (pre.foldl load Life.init) c hpre.1 hpre.2
+  have heq : afterHistory (pre ++ [c]) = load (pre.foldl load Life.init) c := by
+    simp [afterHistory, List.foldl_append]
+  rw [heq]
+  exact ⟨h.2.2.1, h.2.2.2.1, h.2.2.2.2.1, h.2.2.2.2.2⟩
+
+/-- **the remote clause over histories, not just per request**: after any history of loads, whatever
+    remote admin server is still listening, a request it serves — any handler invocation, /id/
+    redirect targets included — is authorised by the access list of the CURRENT config: a verified
+    certificate carries a key that list names, with permissions that allow the method and path.
+    A key that only an earlier config listed is never served, and once `admin.remote` is removed
+    nothing is. -/
+theorem served_remotely_only_if_current_config_authorises (H : Bytes → Req → σ → σ) (mux : Bytes → Bytes → Route)
+    (pre : List LoadCfg) (c : LoadCfg) (srv : RSrv) (hsrv : srv ∈ (afterHistory (pre ++ [c])).liveRemote)
+    (h : Handler) (hh : h.remote = some srv.acl)
+    (idx : Index) (fuel : Nat) (r : Req) (s : σ) (d : Dispatch) (hd : d ∈ (serveHTTP H mux h idx fuel r s).trace) :
+    ∃ a acl chains, c.remote = some (a, acl) ∧ srv.addr = a ∧ r.tls = some chains ∧
+      Authorised acl chains r.method d.path := by
+  have hlive := only_current_config_servers_live pre c
+  cases hc : c.remote with
+  | none => rw [hlive.1 hc] at hsrv; simp at hsrv
+  | some p =>
+    obtain ⟨a, acl⟩ := p
+    obtain ⟨id, hl⟩ := hlive.2.1 a acl hc
+    rw [hl] at hsrv
+    simp at hsrv
+    subst hsrv
+    obtain ⟨chains, htls, hauth⟩ := remote_served_only_if_authorised H mux h idx fuel r s acl hh d hd
+    exact ⟨a, acl, chains, rfl, rfl, htls, hauth⟩
+
+/-- **the lifecycle code the model follows is the code of the source as it is now**
+    (`Gen/AdminGate.lean`, regenerated on every run): both replace functions register a `defer`
+    that stops the previous server; in `replaceRemoteAdminServer` the only returning guard in front
+    of it is `cfg == nil` (so "no admin.remote" returns AFTER the stop is registered), in
+    `replaceLocalAdminServer` there is none (so `admin.disabled` stops the previous server too). -/
+theorem admin_lifecycle_matches_source :
+    Gen.remoteStopsPreviousServer = true ∧ Gen.remoteGuardsBeforeStop = ["cfg==nil"] ∧
+    Gen.localStopsPreviousServer = true ∧ Gen.localGuardsBeforeStop = [] := by
+  decide
+
 -- ================================================================ termination
 
 /-- **termination**: when the `/id/` chain of the request path ends within `n` hops (what the
@@ -805,6 +860,13 @@ example : (serveReal count (newAdminHandler exRemoteCfg exRemoteAddr true []) []
 -- remote_unlisted_identity_401: hypotheses hold for a client presenting only key 7
 example : (newAdminHandler exRemoteCfg exRemoteAddr true []).remote = some exAcl ∧
     (exRemoteReq "GET" "/config/" [[7]]).tls = some [[7]] ∧ ¬ KeyListed exAcl [[7]] := by decide
+-- lifecycle: a history that switches the remote endpoint on (key 0), changes its list (key 1), then off
+def exHist : List LoadCfg :=
+  [⟨.listen 0, some (2, [⟨[0], []⟩])⟩, ⟨.listen 0, some (2, [⟨[1], []⟩])⟩, ⟨.listen 1, none⟩]
+example : (afterHistory (exHist.take 1)).liveRemote = [⟨1, 2, [⟨[0], []⟩]⟩]
+    ∧ (afterHistory (exHist.take 2)).liveRemote = [⟨3, 2, [⟨[1], []⟩]⟩]
+    ∧ (afterHistory exHist).liveRemote = [] ∧ (afterHistory exHist).liveLocal = [⟨4, 1⟩]
+    ∧ ([0, 1].map (keyAnswer [⟨[1], []⟩])) = ['r', 's'] := by decide
 -- serve_never_runs_out_of_fuel: a two-hop chain ends within 2 hops, a cyclic index does not
 example : (idChain [(str "a", str "/id/b"), (str "b", str "/config/x")] 2 (str "/id/a")).isSome = true := by decide
 example : (idChain [(str "a", str "/id/a")] 16 (str "/id/a")).isSome = false := by decide
